@@ -11,11 +11,13 @@ use verif_harness::spy::{Spy, TOp};
 use verif_harness::*;
 
 const KEYS: [&str; 4] = ["k0", "k1", "k2", "k3"];
-const TERM_W: u16 = 40;
+/// widths of the recording terminal (one per history)
+const TERM_WIDTHS: [u16; 5] = [40, 40, 12, 79, 5];
 
-/// built-in keys whose text is constant in these histories (position 0, no length, clock at
-/// rest), with their position in the crate's key list (coq/gen/Constants.v FORMAT_KEYS)
-const NUM_KEYS: [(&str, u32); 12] = [
+/// ALL numeric / time built-in keys with their position in the crate's key list
+/// (coq/gen/Constants.v FORMAT_KEYS).  Their texts are environment inputs of the model: the
+/// harness observes them, per rendering, on a shadow bar that is in the same state.
+const NUM_KEYS: [(&str, u32); 22] = [
     ("pos", 6),
     ("human_pos", 7),
     ("len", 8),
@@ -24,10 +26,20 @@ const NUM_KEYS: [(&str, u32); 12] = [
     ("percent_precise", 11),
     ("bytes", 12),
     ("total_bytes", 13),
+    ("decimal_bytes", 14),
+    ("decimal_total_bytes", 15),
+    ("binary_bytes", 16),
+    ("binary_total_bytes", 17),
     ("elapsed_precise", 18),
     ("elapsed", 19),
     ("per_sec", 20),
+    ("bytes_per_sec", 21),
+    ("decimal_bytes_per_sec", 22),
+    ("binary_bytes_per_sec", 23),
+    ("eta_precise", 24),
     ("eta", 25),
+    ("duration_precise", 26),
+    ("duration", 27),
 ];
 
 #[derive(Clone, Copy, Debug, PartialEq)]
@@ -125,6 +137,11 @@ enum Op {
     WithFinish(Fin),
     FinishUsingStyle,
     Tick,
+    /// pb.update(|s| { s.set_pos(..); s.set_len(..) }): position / length change, then
+    /// BarState::tick - a `Tick` for the model, in a changed environment
+    Update { pos: Option<u64>, len: Option<u64> },
+    /// the mock clock moves on (between two calls): not a call on the bar, not an op of the model
+    Clock(u64),
     Println(String),
     GetMessage,
     GetPrefix,
@@ -262,6 +279,8 @@ impl Op {
             Op::WithFinish(_) => "with_finish",
             Op::FinishUsingStyle => "finish_using_style",
             Op::Tick => "tick",
+            Op::Update { .. } => "update(set_pos/set_len)",
+            Op::Clock(_) => "(clock advances)",
             Op::Println(_) => "println",
             Op::GetMessage => "message()",
             Op::GetPrefix => "prefix()",
@@ -292,7 +311,8 @@ impl Op {
                 }
             ),
             Op::FinishUsingStyle => "FinishUsingStyle".into(),
-            Op::Tick => "Tick".into(),
+            Op::Tick | Op::Update { .. } => "Tick".into(),
+            Op::Clock(_) => unreachable!(),
             Op::Println(s) => format!("Println {}", cstr(s)),
             Op::GetMessage => "GetMessage".into(),
             Op::GetPrefix => "GetPrefix".into(),
@@ -307,6 +327,8 @@ impl Op {
                 format!("{}({s:?})", self.name())
             }
             Op::WithFinish(f) => format!("with_finish({f:?})"),
+            Op::Update { pos, len } => format!("update(pos={pos:?}, len={len:?})"),
+            Op::Clock(ns) => format!("clock+{ns}ns"),
             _ => self.name().to_string(),
         }
     }
@@ -359,9 +381,11 @@ struct Reference {
     prefix: String,
     keys: KeyMap,
     tpl: Option<Vec<T>>, // None: the built-in default template
-    saved: Option<(KeyMap, Option<Vec<T>>, Vec<String>)>,
+    saved: Option<(KeyMap, Option<Vec<T>>, Vec<String>, String)>,
     /// the tick strings of the style in force and the number of tick() calls so far
     ticks: Vec<String>,
+    /// the progress characters of the style in force (one scalar per cluster)
+    pchars: String,
     tick: u64,
     on_finish: Fin,
     hidden: bool,
@@ -643,6 +667,18 @@ impl Gen {
             _ => Op::Tick,
         }
     }
+    /// position / length changes and clock steps: what the numeric keys and the bars depend on
+    fn env_op(&mut self) -> Op {
+        const POS: [u64; 10] = [0, 1, 3, 7, 42, 999, 1000, 123_456_789, 5_000_000_000_000, u64::MAX];
+        const LEN: [u64; 8] = [0, 1, 10, 100, 1024, 1_000_000, 10_000_000_000_000, u64::MAX];
+        const CLK: [u64; 8] = [1_000_000, 250_000_000, 1_000_000_000, 7_500_000_000, 90_000_000_000, 7_200_000_000_000, 200_000_000_000_000, 40_000_000_000_000_000];
+        match self.r.below(5) {
+            0 | 1 => Op::Clock(*self.r.pick(&CLK)),
+            2 => Op::Update { pos: Some(*self.r.pick(&POS)), len: None },
+            3 => Op::Update { pos: if self.r.chance(1, 2) { Some(*self.r.pick(&POS)) } else { None }, len: Some(*self.r.pick(&LEN)) },
+            _ => Op::Update { pos: Some(self.r.range(0, 120)), len: Some(100) },
+        }
+    }
 }
 
 fn glyph_tab(ops: &[Op]) -> bool {
@@ -670,15 +706,21 @@ struct Exec {
     shape_fail: Option<String>,
     build_panic: bool,
     accept_fail: Option<String>,
-    /// (rendering, key number, width, text) of the numeric keys whose text is not constant
+    env_fail: Option<String>,
+    /// (rendering, key number, width, text): what every numeric key placed in the template in
+    /// force wrote at that rendering, observed on the shadow bar
     pernum: Vec<(u64, u32, Option<u16>, String)>,
+    /// (rendering, cells, (filled, current, background)) of the bars of that rendering, where it
+    /// is not "background only"
+    geoms: Vec<(u64, u64, (u64, Option<u64>, u64))>,
 }
 
 /// [multi]: the bar is the only member of a MultiProgress that draws to the recording terminal
 /// (same BarState / format_state code, the lines travel through MultiState::draw)
-fn execute(ops: &[Op], multi: bool) -> Exec {
+fn execute(ops: &[Op], multi: bool, term_w: u16) -> Exec {
     let mut ex = Exec::default();
-    let spy = Spy::new(TERM_W, u16::MAX);
+    indicatif::verif_clock::set_clock_ns(1_000_000_000);
+    let spy = Spy::new(term_w, u16::MAX);
     let mut _mp: Option<MultiProgress> = None;
     let mut pb = match catch(|| {
         if multi {
@@ -696,6 +738,11 @@ fn execute(ops: &[Op], multi: bool) -> Exec {
             return ex;
         }
     };
+    // The shadow: a bar created at the same instant that receives every position / length /
+    // estimator / finish event of the bar under test and nothing else.  Before each rendering it
+    // is asked, one key at a time, what the numeric keys write: the model's environment.
+    let shadow_spy = Spy::new(4000, u16::MAX);
+    let shadow = ProgressBar::with_draw_target(None, ProgressDrawTarget::term_like(Box::new(shadow_spy.clone())));
     let mut saved_style: Option<ProgressStyle> = None;
     let mut rf = Reference {
         tw: 8,
@@ -705,6 +752,7 @@ fn execute(ops: &[Op], multi: bool) -> Exec {
         tpl: None,
         saved: None,
         ticks: default_ticks(),
+        pchars: DEFAULT_PCHARS.to_string(),
         tick: 0,
         on_finish: Fin::AndClear,
         hidden: false,
@@ -716,6 +764,11 @@ fn execute(ops: &[Op], multi: bool) -> Exec {
     spy.take();
     let mut renderings: u64 = 0; // format_state calls so far (a hidden bar is not rendered)
     for (i, o) in ops.iter().enumerate() {
+        if let Op::Clock(ns) = o {
+            indicatif::verif_clock::advance_clock_ns(*ns);
+            ex.counts.push("environment:clock-advanced".into());
+            continue;
+        }
         // ---- reference bookkeeping (history-defined values) + distribution
         ex.counts.push(format!("op:{}", o.name()));
         // ---- a fresh style is built first, away from the bar: the builder may reject its argument
@@ -753,6 +806,12 @@ fn execute(ops: &[Op], multi: bool) -> Exec {
         let apply_fin = |rf: &mut Reference, f: &Fin| {
             rf.hidden = matches!(f, Fin::AndClear);
             rf.finished = true;
+            // the same status / position change on the shadow (state.rs:43-67; no estimator event)
+            match f {
+                Fin::AndLeave | Fin::WithMessage(_) => shadow.finish(),
+                Fin::AndClear => shadow.finish_and_clear(),
+                Fin::Abandon | Fin::AbandonWithMessage(_) => shadow.abandon(),
+            }
             if let Fin::WithMessage(x) | Fin::AbandonWithMessage(x) = f {
                 rf.msg = x.clone();
                 rf.msg_shown = false;
@@ -774,6 +833,7 @@ fn execute(ops: &[Op], multi: bool) -> Exec {
                 rf.keys = keys.clone();
                 rf.tpl = Some(tpl.clone());
                 rf.ticks = gl.tick_strings.clone().unwrap_or_else(default_ticks);
+                rf.pchars = gl.progress_chars.clone().unwrap_or_else(|| DEFAULT_PCHARS.to_string());
                 rf.lits_shown = false;
                 if rf.tw != 8 {
                     ex.counts.push("event:new-style-set-while-width-not-default".into());
@@ -796,14 +856,15 @@ fn execute(ops: &[Op], multi: bool) -> Exec {
                 }
             }
             Op::SaveStyle => {
-                rf.saved = Some((rf.keys.clone(), rf.tpl.clone(), rf.ticks.clone()));
+                rf.saved = Some((rf.keys.clone(), rf.tpl.clone(), rf.ticks.clone(), rf.pchars.clone()));
                 rf.saved_tw = rf.tw;
             }
             Op::RestoreStyle => {
-                if let Some((k, t, ti)) = rf.saved.clone() {
+                if let Some((k, t, ti, pc)) = rf.saved.clone() {
                     rf.keys = k;
                     rf.tpl = t;
                     rf.ticks = ti;
+                    rf.pchars = pc;
                     if rf.saved_tw != rf.tw {
                         ex.counts.push("event:saved-style-restored-after-width-change".into());
                     }
@@ -812,6 +873,7 @@ fn execute(ops: &[Op], multi: bool) -> Exec {
             Op::SetMessage(x) => {
                 rf.msg = x.clone();
                 rf.msg_shown = false;
+                shadow.tick(); // update_estimate_and_draw: the estimator sees the position now
                 expect_draw = true;
             }
             Op::FinishWithMessage(x) => {
@@ -837,13 +899,29 @@ fn execute(ops: &[Op], multi: bool) -> Exec {
             }
             Op::SetPrefix(x) => {
                 rf.prefix = x.clone();
+                shadow.tick();
                 expect_draw = true;
             }
             Op::WithPrefix(x) => rf.prefix = x.clone(),
             Op::Tick => {
                 rf.tick += 1;
+                shadow.tick();
                 expect_draw = true
             }
+            Op::Update { pos, len } => {
+                rf.tick += 1;
+                shadow.update(|st| {
+                    if let Some(p) = pos {
+                        st.set_pos(*p)
+                    }
+                    if let Some(l) = len {
+                        st.set_len(*l)
+                    }
+                });
+                ex.counts.push("environment:position-or-length-changed".into());
+                expect_draw = true
+            }
+            Op::Clock(_) => unreachable!(),
             Op::Println(_) => expect_draw = true,
             Op::GetMessage => rf.msg_shown = true,
             Op::GetPrefix => {}
@@ -877,18 +955,41 @@ fn execute(ops: &[Op], multi: bool) -> Exec {
                 }
             }
         }
-        // ---- the environment of this rendering: {per_sec} depends on its width (a precision) and
-        // on whether the bar is finished (state.rs:330-336: estimator while in progress,
-        // pos / elapsed afterwards = 0/0 on a clock at rest)
+        // ---- the environment of this rendering, observed on the shadow (same instant, same
+        // position / length / estimator / status): the text of every numeric key of the template
+        // in force, and the geometry of its bars
         if expect_draw && !rf.hidden {
-            if let Some(tpl) = &rf.tpl {
+            // no style set yet: "{wide_bar} {pos}/{len}" (ProgressStyle::default_bar, style.rs:73-75)
+            let default_tpl = vec![T::Ph(bare(Key::WideBar)), lit(" "), T::Ph(bare(Key::Num(0))), lit("/"), T::Ph(bare(Key::Num(2)))];
+            {
+                let tpl = rf.tpl.as_ref().unwrap_or(&default_tpl);
+                let (pos, len) = (shadow.position(), shadow.length());
                 for p in tpl {
                     if let T::Ph(h) = p {
-                        if let Key::Num(k) = h.key {
-                            if NUM_KEYS[k].0 == "per_sec" {
-                                ex.pernum.push((renderings, NUM_KEYS[k].1, h.width, probe_per_sec(h.width, rf.finished)));
-                                ex.counts.push(format!("environment:per_sec:{}", if rf.finished { "finished-bar" } else { "bar-in-progress" }));
+                        match h.key {
+                            Key::Num(k) => {
+                                let text = probe_num(&shadow, &shadow_spy, NUM_KEYS[k].0, h.width);
+                                // the model's hypothesis env_ok, looked at directly
+                                if text.contains('\t') && ex.env_fail.is_none() {
+                                    ex.env_fail = Some(format!("before op #{i} {}: {{{}}} writes {text:?}", o.desc(), NUM_KEYS[k].0));
+                                }
+                                ex.pernum.push((renderings, NUM_KEYS[k].1, h.width, text));
+                                ex.counts.push(format!("environment:numeric-key:{}", NUM_KEYS[k].0));
                             }
+                            Key::Bar | Key::WideBar => {
+                                let n = rf.pchars.chars().count();
+                                let cw = console::measure_text_width(&rf.pchars.chars().next().unwrap().to_string()).max(1);
+                                let cells: Vec<u64> = if h.key == Key::Bar { vec![h.width.unwrap_or(20) as u64 / cw as u64] } else { (0..=term_w as u64 / cw as u64).collect() };
+                                for c in cells {
+                                    let g = bar_geometry(pos, len, c as usize, n);
+                                    if g != (0, None, c) {
+                                        ex.geoms.push((renderings, c, g));
+                                    }
+                                }
+                                let f = fraction(pos, len);
+                                ex.counts.push(format!("environment:bar-fraction:{}", if f == 0.0 { "0" } else if f >= 1.0 { "1" } else { "between" }));
+                            }
+                            _ => {}
                         }
                     }
                 }
@@ -956,6 +1057,14 @@ fn execute(ops: &[Op], multi: bool) -> Exec {
                     Op::AbandonWithMessage(x) => p.abandon_with_message(x.clone()),
                     Op::FinishUsingStyle => p.finish_using_style(),
                     Op::Tick => p.tick(),
+                    Op::Update { pos, len } => p.update(|st| {
+                        if let Some(x) = pos {
+                            st.set_pos(*x)
+                        }
+                        if let Some(l) = len {
+                            st.set_len(*l)
+                        }
+                    }),
                     Op::Println(x) => p.println(x),
                     Op::GetMessage => got = Some(p.message()),
                     Op::GetPrefix => got = Some(p.prefix()),
@@ -1060,51 +1169,46 @@ fn execute(ops: &[Op], multi: bool) -> Exec {
     ex
 }
 
-/// the environment of these runs, as observed on the crate: the text of every numeric key on a
-/// fresh bar (position 0, no length, clock at rest) - constant over all histories
-fn probe_nums() -> Vec<(u32, String)> {
-    NUM_KEYS
-        .iter()
-        .map(|(name, id)| {
-            let spy = Spy::new(200, u16::MAX);
-            let pb = ProgressBar::with_draw_target(None, ProgressDrawTarget::term_like(Box::new(spy.clone())));
-            pb.set_style(ProgressStyle::with_template(&format!("{{{name}}}")).unwrap());
-            spy.take();
-            pb.tick();
-            let line = spy.take().into_iter().find_map(|t| if let TOp::Str(x) = t { Some(x) } else { None }).unwrap_or_default();
-            std::mem::forget(pb);
-            (*id, line)
-        })
-        .collect()
+/// what the numeric key [name] writes (before padding) on the shadow bar right now: its template is
+/// set to that one placeholder and a draw is forced that neither ticks nor feeds the estimator
+fn probe_num(shadow: &ProgressBar, spy: &Spy, name: &str, width: Option<u16>) -> String {
+    let t = match width {
+        Some(w) => format!("{{{name}:{w}}}"),
+        None => format!("{{{name}}}"),
+    };
+    shadow.set_style(ProgressStyle::with_template(&t).unwrap());
+    spy.take();
+    shadow.set_tab_width(8);
+    let line = spy.take().into_iter().find_map(|t| if let TOp::Str(x) = t { Some(x) } else { None }).unwrap_or_default();
+    // a sized field pads on the right (left alignment, no truncation): the text itself never ends with a space
+    line.trim_end_matches(' ').to_string()
 }
 
-thread_local! {
-    static PER_SEC: std::cell::RefCell<std::collections::HashMap<(Option<u16>, bool), String>> = Default::default();
-}
-/// the text {per_sec} writes (before padding) for a given placeholder width on a bar at position
-/// 0 with the clock at rest, in progress or finished; observed on the crate, once per argument
-fn probe_per_sec(width: Option<u16>, finished: bool) -> String {
-    if let Some(x) = PER_SEC.with(|m| m.borrow().get(&(width, finished)).cloned()) {
-        return x;
-    }
-    let spy = Spy::new(200, u16::MAX);
-    let pb = ProgressBar::with_draw_target(None, ProgressDrawTarget::term_like(Box::new(spy.clone())));
-    let t = match width {
-        Some(w) => format!("{{per_sec:{w}}}"),
-        None => "{per_sec}".to_string(),
+/// ProgressState::fraction (state.rs:286-295)
+fn fraction(pos: u64, len: Option<u64>) -> f32 {
+    let pct = match (pos, len) {
+        (_, None) => 0.0,
+        (_, Some(0)) => 1.0,
+        (0, _) => 0.0,
+        (pos, Some(len)) => pos as f32 / len as f32,
     };
-    pb.set_style(ProgressStyle::with_template(&t).unwrap());
-    if finished {
-        pb.abandon();
-    }
-    spy.take();
-    pb.tick();
-    let line = spy.take().into_iter().find_map(|t| if let TOp::Str(x) = t { Some(x) } else { None }).unwrap_or_default();
-    std::mem::forget(pb);
-    // a sized field pads on the right (left alignment, no truncation): the text itself never ends with a space
-    let text = line.trim_end_matches(' ').to_string();
-    PER_SEC.with(|m| m.borrow_mut().insert((width, finished), text.clone()));
-    text
+    pct.clamp(0.0, 1.0)
+}
+/// the cell arithmetic of ProgressStyle::format_bar (style.rs:193-222) for [cells] cells and [n]
+/// progress characters: (filled, index of the current character, background).  This is the
+/// model's environment (C13 owns its correctness); C16 checks what the bar is assembled from.
+fn bar_geometry(pos: u64, len: Option<u64>, cells: usize, n: usize) -> (u64, Option<u64>, u64) {
+    let fill = fraction(pos, len) * cells as f32;
+    let entirely_filled = fill as usize;
+    let head = usize::from(fill > 0.0 && entirely_filled < cells);
+    let cur = if head == 1 {
+        let k = n.saturating_sub(2);
+        Some(if k <= 1 { 1 } else { k.saturating_sub((fill.fract() * k as f32) as usize) } as u64)
+    } else {
+        None
+    };
+    let bg = cells.saturating_sub(entirely_filled).saturating_sub(head);
+    (entirely_filled as u64, cur, bg as u64)
 }
 
 fn collect_chars(ops: &[Op], ex: &Exec, nums: &[(u32, String)], acc: &mut std::collections::BTreeSet<char>) {
@@ -1137,7 +1241,7 @@ fn collect_chars(ops: &[Op], ex: &Exec, nums: &[(u32, String)], acc: &mut std::c
     add("\0 ");
 }
 
-fn report(s: &mut Session, ops: &[Op], ex: &Exec, twin: Option<&Exec>, nums: &[(u32, String)], multi: bool) {
+fn report(s: &mut Session, ops: &[Op], ex: &Exec, twin: Option<&Exec>, nums: &[(u32, String)], multi: bool, term_w: u16) {
     let desc = format!("{}ops=[{}]", if multi { "member of a MultiProgress; " } else { "" }, ops.iter().map(|o| o.desc()).collect::<Vec<_>>().join("; "));
     for c in &ex.counts {
         s.count(c);
@@ -1156,6 +1260,9 @@ fn report(s: &mut Session, ops: &[Op], ex: &Exec, twin: Option<&Exec>, nums: &[(
         } else {
             s.fail("tab-reached-terminal", d.clone(), desc.clone());
         }
+    }
+    if let Some(d) = &ex.env_fail {
+        s.fail("tab-in-numeric-key-text", d.clone(), desc.clone());
     }
     if let Some(d) = &ex.accept_fail {
         s.fail("tab-progress-chars-accepted", d.clone(), desc.clone());
@@ -1187,7 +1294,7 @@ fn report(s: &mut Session, ops: &[Op], ex: &Exec, twin: Option<&Exec>, nums: &[(
         })
         .collect();
     let coq = format!(
-        "({TERM_W}, {}, {}, {}, {}, {})",
+        "({term_w}, {}, {}, {}, {}, {}, {})",
         clist(wt),
         clist(nums.iter().map(|(id, x)| format!("({id}, {})", cstr(x)))),
         clist(ex.pernum.iter().map(|(d, id, w, x)| format!(
@@ -1198,35 +1305,43 @@ fn report(s: &mut Session, ops: &[Op], ex: &Exec, twin: Option<&Exec>, nums: &[(
             },
             cstr(x)
         ))),
-        clist(ops.iter().map(|o| o.coq())),
+        clist(ex.geoms.iter().map(|(d, c, (f, cur, bg))| format!(
+            "({d}, {c}, ({f}, {}, {bg}))",
+            match cur {
+                Some(i) => format!("Some {i}"),
+                None => "None".into(),
+            }
+        ))),
+        clist(ops.iter().filter(|o| !matches!(o, Op::Clock(_))).map(|o| o.coq())),
         clist(ex.outs.iter().map(|o| o.coq()))
     );
     s.case(coq, desc, nontrivial);
 }
 
-fn run_case(s: &mut Session, ops: &[Op], nums: &[(u32, String)], tab_twin: char, multi: bool) {
+fn run_case(s: &mut Session, ops: &[Op], nums: &[(u32, String)], tab_twin: char, multi: bool, term_w: u16) {
     s.count(if multi { "target:member-of-a-MultiProgress" } else { "target:own-terminal" });
+    s.count(&format!("terminal-width:{term_w}"));
     if glyph_tab(ops) {
         let twin_ops = sanitise(ops, tab_twin);
-        let twin = execute(&twin_ops, multi);
+        let twin = execute(&twin_ops, multi, term_w);
         if twin.build_panic {
             s.count("history-dropped:style-builder-rejected-its-argument");
             return;
         }
-        let ex = execute(ops, multi);
+        let ex = execute(ops, multi, term_w);
         if ex.build_panic {
             s.count("history-dropped:style-builder-rejected-its-argument");
             return;
         }
-        report(s, &twin_ops, &twin, None, nums, multi);
-        report(s, ops, &ex, Some(&twin), nums, multi);
+        report(s, &twin_ops, &twin, None, nums, multi, term_w);
+        report(s, ops, &ex, Some(&twin), nums, multi, term_w);
     } else {
-        let ex = execute(ops, multi);
+        let ex = execute(ops, multi, term_w);
         if ex.build_panic {
             s.count("history-dropped:style-builder-rejected-its-argument");
             return;
         }
-        report(s, ops, &ex, None, nums, multi);
+        report(s, ops, &ex, None, nums, multi, term_w);
     }
 }
 
@@ -1244,11 +1359,11 @@ fn main() {
     // styled placeholders write their escape sequences whatever stdout is
     console::set_colors_enabled(true);
     let header = "From IndModel Require Import Base Tabs.\nFrom IndModel Require Padded.\nOpen Scope N_scope.\n";
-    let mut s = Session::new(&a, "C16", header, "(N * list (N * N) * list (N * text) * list (N * N * option N * text) * list op * list out)%type", "c16_check");
+    let mut s = Session::new(&a, "C16", header, "(N * list (N * N) * list (N * text) * list (N * N * option N * text) * list (N * N * (N * option N * N)) * list op * list out)%type", "c16_check");
     s.shard_size = 120;
-    s.rule = "histories (length 1..30) of set_tab_width/with_tab_width, set_style/with_style (fresh style, style().template(), saved clone), set_message/with_message/set_prefix/with_prefix/finish_with_message/abandon_with_message/with_finish/finish_using_style, tick, println (texts with TABs, several lines, empty), message()/prefix() on one bar drawing to a recording TermLike of 40 columns; texts of 0..7 characters with TAB probability 1/3 (also tab-free and tab-only), long messages (8..60) for truncation, tab widths 0,1,2,3,4,8,16 and random up to 40, templates of 0..6 parts; 2 in 5 histories are 'rich': placeholders of every kind (msg, prefix, custom, wide_msg, wide_bar, bar, spinner, 12 numeric keys) with alignment / width / truncation / style / alt style, and styles with their own tick strings / progress characters, a third of the tick strings with TABs (each such history is also run with those TABs replaced: the twin attributes a TAB that reaches the terminal), 4 in 9 progress-character arguments with a TAB (the builder must reject them and the history goes on with the old style); every history is compared with the model; non-trivial = at least 2 ops; distinct = distinct history text".into();
+    s.rule = "histories (length 1..30, half of them with clock steps and update(set_pos/set_len) calls in between) of set_tab_width/with_tab_width, set_style/with_style (fresh style, style().template(), saved clone), set_message/with_message/set_prefix/with_prefix/finish_with_message/abandon_with_message/with_finish/finish_using_style, tick, println (texts with TABs, several lines, empty), message()/prefix() on one bar drawing to a recording TermLike of 40, 12, 79 or 5 columns; texts of 0..7 characters with TAB probability 1/3 (also tab-free and tab-only), long messages (8..60) for truncation, tab widths 0,1,2,3,4,8,16 and random up to 40, templates of 0..6 parts; 2 in 5 histories are 'rich': placeholders of every kind (msg, prefix, custom, wide_msg, wide_bar, bar, spinner, all 22 numeric / time keys (texts observed per rendering on a shadow bar in the same state)) with alignment / width / truncation / style / alt style, and styles with their own tick strings / progress characters, a third of the tick strings with TABs (each such history is also run with those TABs replaced: the twin attributes a TAB that reaches the terminal), 4 in 9 progress-character arguments with a TAB (the builder must reject them and the history goes on with the old style); every history is compared with the model; non-trivial = at least 2 ops; distinct = distinct history text".into();
     let mut g = Gen { r: Rng::new(a.seed) };
-    let nums = probe_nums();
+    let nums: Vec<(u32, String)> = vec![]; // no constant numeric texts: all are given per rendering
     let tab_twin = if console::measure_text_width("\t") == 0 { '\u{200b}' } else { '¤' };
     s.count(&format!("environment:measure_text_width(TAB)={}", console::measure_text_width("\t")));
 
@@ -1411,12 +1526,56 @@ fn main() {
             style(&vec![], &[T::Msg]),
             Op::Tick,
         ],
+        // every numeric / time key, on a bar whose position, length and clock move
+        vec![
+            style(
+                &vec![],
+                &(0..NUM_KEYS.len())
+                    .flat_map(|i| {
+                        let mut v = vec![T::Ph(bare(Key::Num(i))), lit(if i % 4 == 3 { "\t|" } else { " " })];
+                        if i % 6 == 5 {
+                            v.push(T::NewLine)
+                        }
+                        v
+                    })
+                    .collect::<Vec<_>>(),
+            ),
+            Op::Tick,
+            Op::Clock(90_000_000_000),
+            Op::Update { pos: Some(512), len: Some(2048) },
+            Op::Clock(1_000_000_000),
+            Op::Update { pos: Some(1_500_000), len: None },
+            Op::SetTabWidth(2),
+            Op::Clock(7_200_000_000_000),
+            Op::Update { pos: Some(123_456_789_012), len: Some(u64::MAX) },
+            Op::FinishWithMessage("\t".into()),
+            Op::Clock(1_000_000),
+            Op::Tick,
+        ],
+        // bars with filled, current and background cells; several current characters
+        vec![
+            Op::SetStyleNew {
+                keys: vec![],
+                gl: Glyphs { tick_strings: None, progress_chars: Some("█▓▒░".into()) },
+                tpl: vec![T::Ph(Ph { key: Key::Bar, align: None, width: Some(10), trunc: false, style: None, alt: Some("blue") }), lit("\t"), T::Ph(bare(Key::WideBar)), T::Msg],
+                builder: false,
+            },
+            Op::Update { pos: Some(0), len: Some(100) },
+            Op::Update { pos: Some(33), len: None },
+            Op::SetMessage("\tm".into()),
+            Op::Update { pos: Some(58), len: None },
+            Op::SetStyleDerived { tpl: vec![T::Ph(bare(Key::Bar)), T::NewLine, T::Ph(bare(Key::WideBar))], builder: false },
+            Op::Update { pos: Some(99), len: None },
+            Op::Update { pos: Some(100), len: None },
+            Op::Update { pos: Some(250), len: None },
+            Op::AbandonWithMessage("x".into()),
+        ],
     ];
     for ops in &corpus {
-        run_case(&mut s, ops, &nums, tab_twin, false);
+        run_case(&mut s, ops, &nums, tab_twin, false, 40);
     }
     for ops in &corpus {
-        run_case(&mut s, ops, &nums, tab_twin, true);
+        run_case(&mut s, ops, &nums, tab_twin, true, 40);
     }
     // ---------------------------------------------------------------- random
     let n = if a.thorough { 20_000 } else if a.extended { 16_000 } else { 2_000 };
@@ -1438,8 +1597,21 @@ fn main() {
         while ops.len() < len {
             ops.push(g.op(rich));
         }
+        // half of the histories live: the clock runs, position and length change between the calls
+        if g.r.chance(1, 2) {
+            s.count("history:position-length-clock-change");
+            let mut live: Vec<Op> = vec![];
+            for o in ops {
+                if g.r.chance(1, 3) {
+                    live.push(g.env_op());
+                }
+                live.push(o);
+            }
+            ops = live;
+        }
         let multi = g.r.chance(1, 6);
-        run_case(&mut s, &ops, &nums, tab_twin, multi);
+        let term_w = *g.r.pick(&TERM_WIDTHS);
+        run_case(&mut s, &ops, &nums, tab_twin, multi, term_w);
     }
     s.finish();
 }
